@@ -1126,7 +1126,8 @@ def run_multi_cases(ctx, be, cases):
             gets.append([s, codes(nm), 7, c['big'], [], []])
             meaning.append(('whole', ci, None))
             for pi, (off, pch) in enumerate(parts):
-                gets.append([s, codes(nm), 7, pch, off, []])
+                # the part at the origin is read without an offset, like the whole array (same name, other chunking)
+                gets.append([s, codes(nm), 7, pch, off if any(off) else [], []])
                 meaning.append(('part', ci, pi))
             if c['index'] and ci == 0:
                 gets.append([s, codes(nm), 7, c['big'], [], [[[] if a is None else [a], [] if b is None else [b]] for a, b in c['index']]])
@@ -1221,7 +1222,8 @@ def multi_case(ctx, be, c, parts, meaning, mo):
         elif what == 'part':
             off, pch = parts[pi]
             psh = tuple(sum(x) for x in pch)
-            gets.append(stores[s].get_dask_array(nm, tuple(tuple(x) for x in pch), dtype, offset=tuple(off), errors=c['errors']))
+            gets.append(stores[s].get_dask_array(nm, tuple(tuple(x) for x in pch), dtype,
+                                                 offset=tuple(off) if any(off) else (), errors=c['errors']))
             exps.append(sub(data[did], tuple(slice(o, o + n) for o, n in zip(off, psh))))
         else:
             index = tuple(slice(a, b) for a, b in c['index'])
@@ -1246,7 +1248,8 @@ def multi_case(ctx, be, c, parts, meaning, mo):
             break
         if 0 in e.shape and what == 'index':
             continue        # empty selections: the model of _prune_chunks is not compared (see index_case)
-        if mres[0] != 0 or not same(conv(dtype, np.array(mres[1], dtype=np.int64).reshape(e.shape)), e):
+        if mres[0] != 0 or len(mres[1]) != e.size or \
+                not same(conv(dtype, np.array(mres[1], dtype=np.int64).reshape(e.shape)), e):
             ctx.disagree(sig + 'read=%s;symptom=model_differs' % what, c, o.ravel()[:8].tolist(), mres, 'model result differs', kind='tie')
             break
 
@@ -1287,16 +1290,21 @@ def run(ctx):
             run_roundtrips(ctx, be, gen_roundtrips(ctx, ctx.scale(480, 6000)))
             run_index_cases(ctx, be, gen_index_cases(ctx, ctx.scale(300, 4500)))
             run_ops(ctx, be, ctx.scale(120, 1500))
-            run_layout_cases(ctx, be, gen_layout_cases(ctx, ctx.scale(240, 3000)))
-            run_foreign_cases(ctx, be, gen_foreign_cases(ctx, ctx.scale(60, 800)))
-            run_multi_cases(ctx, be, gen_multi_cases(ctx, ctx.scale(150, 2000)))
+            run_layout_cases(ctx, be, gen_layout_cases(ctx, ctx.scale(400, 4800)))
+            run_foreign_cases(ctx, be, gen_foreign_cases(ctx, ctx.scale(120, 1500)))
+            run_multi_cases(ctx, be, gen_multi_cases(ctx, ctx.scale(300, 3600)))
             if ctx.tier == 'thorough':
                 run_gc_exhaustive(ctx)
                 sample = [[7, [6, 5, z]] for z in (0, 7, 99999, 100000, -1, -12345, 10 ** 17)]
                 sample += [[7, [2, codes('x'), [[2, 1], [1, 2]], [3, 100000], [3, 100000], 0]],
                            [7, [3, codes('x'), [[2, 2, 2], [1, 1]], [[[1], [5]], [[], []]], 1]],
                            [7, [4, [10, 7], 13, 2, [0, 1], 0, [[0, 4]], [[3, 3, 3, 1], [2, 2, 2, 1]]]],
-                           [7, [5, codes('/a_b/c_d/00000_00001.npy')]]]
+                           [7, [5, codes('/a_b/c_d/00000_00001.npy')]],
+                           [71, [1, [2, 3], 1]], [71, [2, [2, 3, 2], 1]], [71, [2, [], 1]],
+                           [72, [2, [[0, codes('x'), 7, 1, [[2, 2]], [0], 0], [0, codes('x'), 7, 2, [[2, 2]], [4], 4000],
+                                     [1, codes('x'), 7, 1, [[2, 2]], [0], 0]],
+                                 [[0, codes('x'), 7, [[2, 2, 2, 2]], [], []], [1, codes('x'), 7, [[2, 2]], [0], []],
+                                  [0, codes('x'), 7, [[2, 2, 2, 2]], [], [[[3], [6]]]]], 0]]]
                 from vh import core
                 with core.BuildLock():      # a clean rebuild of Props/C07.vo leaves other models uncompiled
                     core.make(' '.join(x[:-2] + '.vo' for x in core.coq_sources() if x.startswith(('Base/', 'Gen/', 'Model/'))))
